@@ -89,7 +89,9 @@ def anneal_temperature_range(model, start_flip_prob=0.5,
         variables = set(v for k in model for v in k)
 
     # if the model is empty or just an offset
-    if not variables:
+    # ``variables`` can be out of date (see ``refresh``), so also make sure
+    # that there is at least one term that a variable appears in.
+    if not variables or not any(model):
         return 0, 0
 
     factor = 2  # should be this (I think)
